@@ -74,6 +74,8 @@ def evaluate(mod, cases, scratch, out, findings, asan=False):
         out.evals += 1
         ir = impl[i]
         if isinstance(ir, dict) and ir.get("notrun"):
+            out.notrun = getattr(out, "notrun", 0) + 1       # (the worker died on an earlier case, reported there)
+            out.evals -= 1
             continue
         if hasattr(mod, "tally"):
             mod.tally(out.dist, c, ir)
@@ -163,6 +165,12 @@ def corpus_cases(prop_id, mod=None):
     return out
 
 
+def corpus_report(prop_id, mod):
+    d = os.path.join(C.VERIF, "corpus", prop_id)
+    files = sorted(f for f in os.listdir(d) if f.endswith(".json")) if os.path.isdir(d) else []
+    return {"files": len(files), "loaded": len(corpus_cases(prop_id, mod))}
+
+
 def run_check(prop_id, tier):
     t0 = time.time()
     seed = int(os.environ.get("VERIF_SEED", "0") or 0)
@@ -173,6 +181,16 @@ def run_check(prop_id, tier):
     findings = C.load_known_findings(prop_id)
     fp = C.source_fingerprint()
     gate = C.coq_gate(prop_id, full=False, chk=(tier == "thorough"))
+    xc = None
+    if gate["ok"]:
+        from harness import xcheck
+        try:
+            xc = xcheck.run(prop_id, seed)
+        except Exception as e:      # noqa
+            xc = {"cases": 0, "ok": False, "error": repr(e)[:500]}
+        if xc is not None and not xc["ok"]:
+            gate["ok"] = False
+            gate["errors"].append("the extracted model binary disagrees with vm_compute inside Coq: " + xc.get("error", ""))
     violations_out = []
 
     def report(payload, nofail=False):
@@ -193,8 +211,13 @@ def run_check(prop_id, tier):
         report({"kind": "build", "what": "the working tree does not build, nothing can be shown to hold",
                 "log": build_err}, nofail=True)
     else:
-        cases = corpus_cases(prop_id, mod) + mod.gen(rng, tier)
+        generated = mod.gen(rng, tier)
+        cases = corpus_cases(prop_id, mod) + generated
         evaluate(mod, cases, scratch, out, findings)
+        ran = out.evals
+        if not generated or not ran:
+            report({"kind": "harness", "what": "the generator produced no case (or none was evaluated): nothing was "
+                    "shown to hold", "generated": len(generated), "evaluated": out.evals}, nofail=True)
         extra_ev = {}
         if hasattr(mod, "extra_phase"):
             ctx = {"tier": tier, "seed": seed, "rng": rng, "scratch": scratch, "cases": cases, "out": out,
@@ -250,9 +273,12 @@ def run_check(prop_id, tier):
         "closed_under_global_context": gate.get("closed_count", 0),
         "correspondence": {"cases": out.evals, "impl_ne_model": len(out.corr_breaks)},
         "known_findings_seen": {k: v[0] for k, v in out.known.items()},
+        "not_run_after_a_crash": getattr(out, "notrun", 0),
+        "corpus_entries": corpus_report(prop_id, mod),
         "input_distribution": out.dist,
         "explanation": getattr(mod, "EXPLANATION", ""),
         "coq_gate_s": gate["wall_s"],
+        "extraction_crosscheck": xc if xc is not None else "not sampled for this property (done for C11, C12, C14)",
         "model_binary": gate.get("model_binary", "not checked (the Coq build failed)"),
         "print_assumptions_outputs": gate.get("print_assumptions", 0),
         "coqchk": gate.get("coqchk", "not run in this tier (thorough only)"),
@@ -275,7 +301,9 @@ def run_replay(path):
     prop_id = rp["property"]
     mod = load_mod(prop_id)
     if hasattr(mod, "replay"):
-        return mod.replay(rp)
+        r = mod.replay(rp)
+        if r is not None:             # None: the module's hook does not handle this replay file, the generic path does
+            return r
     if rp.get("kind") not in ("input", "correspondence"):
         print(f"replay of kind {rp.get('kind')}: re-running the quick check")
         return run_check(prop_id, "quick")
